@@ -332,7 +332,8 @@ func check(args []string) int {
 	cfg := &vc.SolverCfg{Timeout: *timeout, Solvers: []string{"z3-new", "z3", "cvc5"}, Dir: dir, Parallel: 6, Seed: seed}
 	if *tier == "thorough" {
 		cfg.All = true
-		if *timeout == 10*time.Second {
+		cfg.Grace = 4 * time.Second
+		if *timeout == 15*time.Second {
 			cfg.Timeout = 60 * time.Second
 		}
 	}
